@@ -87,8 +87,10 @@ class M:
           ms multiset of rows | part partition given as label vector |
           x / xp excluded matrix / matrix of node indices (tie-dependent by definition, counted only)"""
 
-    def __init__(self, name, dom, fn, outs, variant='', need=None, cond=None, t=2.0, uses_ci=False, cond_fn=None, legit_raise=None):
+    def __init__(self, name, dom, fn, outs, variant='', need=None, cond=None, t=2.0, uses_ci=False, cond_fn=None, legit_raise=None,
+                 cond_pair=None):
         self.name, self.dom, self.fn, self.outs, self.variant, self.need, self.t = name, dom, fn, outs, variant, need, t
+        self.cond_pair = cond_pair  # (A, p, f(A), f(A[p,p])) -> extra keys of an equivariance violation's cond
         self.cond_fn = cond_fn      # graph -> extra keys of a violation's cond (matched against known findings)
         # (exception kind, predicate on the graph): the only in-domain exception that follows from the routine's own code;
         # any other exception on an in-domain input is a violation, whether or not both numberings raise it
@@ -215,12 +217,60 @@ def build_measures():
     add('matching_ind_und', 'bu', lambda b, A, ci: (b.matching_ind_und(A),), (('M0', MM, EX),))
     for ns in (0, 1, 2, 3, 4):
         add('gtom', 'bu', lambda b, A, ci, ns=ns: (b.gtom(A, ns),), (('gt', MM, EX),), variant='nr_steps=%d' % ns,
-            cond={'nr_steps': ns, 'nr_steps_ge_3': ns >= 3})
+            cond={'nr_steps': ns, 'nr_steps_ge_3': ns >= 3}, cond_pair=gtom_pair_cond(ns) if ns >= 3 else None)
     add('edge_nei_overlap_bu', 'bu', lambda b, A, ci: _eno(b.edge_nei_overlap_bu(A)), (('EC', MM, EX), ('ec,degij', MS, EX)),
         legit_raise=('ZeroDivisionError', isolated_edge))
     add('edge_nei_overlap_bd', 'bd', lambda b, A, ci: _eno(b.edge_nei_overlap_bd(A)), (('EC', MM, EX), ('ec,degij', MS, EX)),
         legit_raise=('ZeroDivisionError', isolated_edge))
     return L
+
+
+def gtom_ascoded(A, nr_steps):
+    """gtom exactly as coded (binarise; `range(2, nr_steps)` rounds of the IN-PLACE neighbourhood expansion, node by node in index
+    order; numerator / denominator formula) in plain Python on exact fractions - the algorithm of the Lean model `Measures.gtom`"""
+    n = len(A)
+    bm = [[1 if A[i][j] != 0 else 0 for j in range(n)] for i in range(n)]
+    if nr_steps == 0:
+        return [[Fraction(x) for x in row] for row in bm]
+    B = [row[:] for row in bm]
+    for _ in range(2, nr_steps):
+        for i in range(n):
+            ng = [c for c in range(n) if B[i][c] == 1]
+            new = sorted({c for r in ng for c in range(n) if B[r][c] == 1} - {i})
+            for c in new:
+                B[i][c] = 1
+                B[c][i] = 1
+    k = [sum(B[r][c] for r in range(n)) for c in range(n)]
+    out = []
+    for i in range(n):
+        row = []
+        for j in range(n):
+            num = sum(B[i][t] * B[t][j] for t in range(n)) + bm[i][j] + (1 if i == j else 0)
+            den = -bm[i][j] + max(k[i], k[j]) + 1
+            row.append(Fraction(num, den) if den != 0 else None)
+        out.append(row)
+    return out
+
+
+def gtom_pair_cond(ns):
+    def f(A, p, base, permd):
+        """is bct's output on both numberings exactly what the as-coded in-place algorithm gives? (then a failure of
+        equivariance is the known order dependence and nothing else)"""
+        try:
+            ok = True
+            for M_, out in ((A, base), (A[np.ix_(p, p)], permd)):
+                if out[0] != 'ok':
+                    return {'ascoded_model_agrees': False}
+                ref = gtom_ascoded(M_.tolist(), ns)
+                got = np.asarray(out[1][0], float)
+                for i in range(len(M_)):
+                    for j in range(len(M_)):
+                        r = ref[i][j]
+                        ok = ok and r is not None and float(r) == got[i, j]
+            return {'ascoded_model_agrees': bool(ok)}
+        except Exception:
+            return {'ascoded_model_agrees': False}
+    return f
 
 
 def _peel(r, n):
@@ -438,7 +488,10 @@ def check_pair(m, A, ci, p, base, permd, res, rep=None):
                 res['excluded_differs'] += 1
             continue
         if not compare(kind, exact, bo, po, p, tol=(1e-4 if rep in SINGLE_PRECISION_REPS else TOL)):
-            res['viol'].append({'measure': m.key, 'name': m.name, 'pred': 'equivariance', 'cond': cond_of(m, A, rep),
+            cnd = cond_of(m, A, rep)
+            if m.cond_pair is not None:
+                cnd.update(m.cond_pair(A, p, base, permd))
+            res['viol'].append({'measure': m.key, 'name': m.name, 'pred': 'equivariance', 'cond': cnd,
                                 'detail': {'measure': m.key, 'output': label, 'kind': kind, 'exact': exact, 'A': A.tolist(),
                                            'p': [int(t) for t in p], 'ci': ci.tolist(), 'rep': rep,
                                            'f(A)': np.asarray(bo, float).tolist(), 'f(A[p,p])': np.asarray(po, float).tolist()}})
